@@ -6,6 +6,9 @@ def body(chk):
     ingest.obligations(chk, 'C04')
     sched.insert_scenarios_obligations(chk, 'C04')
     sched_worlds.run(chk, 'C04')
+    # every scenario of a feature reaches the queue, filed under its own rule (also with a rule left empty by a filter in front)
+    from checks import insert_retry
+    insert_retry.obligations(chk, 'C04')
 
 
 if __name__ == '__main__':
